@@ -52,7 +52,11 @@ def render(flows):
         src += PRELUDES.get(f.get("prelude"), "")
         args = ", ".join("%s=%s" % (p, 99 if (f["mismatch"] and p == f["S"][0]) else VAL[p]) for p in f["S"])
         aargs = "" if f["aarg"] is None else "x=%d" % f["aarg"]
-        src += "  match Ev(%s)\n  start %s%sAction(%s)\n\n" % (args, f["act"], "Y" if f["loop"] else "X", aargs)
+        if f.get("fork"):
+            nm = "%s%sAction" % (f["act"], "Y" if f["loop"] else "X")
+            src += "  match Ev(%s)\n  start %s(x=1) or %s(x=2)\n\n" % (args, nm, nm)
+        else:
+            src += "  match Ev(%s)\n  start %s%sAction(%s)\n\n" % (args, f["act"], "Y" if f["loop"] else "X", aargs)
     if any(f.get("prelude") for f in flows):
         src += "flow failing one\n  abort\n\nflow failing two\n  abort\n\nflow done one\n  $z = 1\n\n"
     return src
@@ -88,7 +92,11 @@ def gen_program(rng, flows=None):
             aarg = rng.choice([None, None, 1, 2])
             override = rng.choice([None, None, None, None, "base-has-loop", "plain"])
             prelude = rng.choice(sorted(PRELUDES)) if rng.random() < 0.25 else None
-            flows.append(dict(i=i, S=S, mismatch=mismatch, prio=prio, loop=loop, act=act, aarg=aarg, override=override, prelude=prelude))
+            fork = rng.random() < 0.15
+            if fork:
+                # the flow forks right after its match: `start A(x=1) or A(x=2)` (one alternative is picked); its own action name
+                act, aarg = "F%d" % i, None
+            flows.append(dict(i=i, S=S, mismatch=mismatch, prio=prio, loop=loop, act=act, aarg=aarg, override=override, prelude=prelude, fork=fork))
     ev = {"type": "Ev", "a": 1, "b": 2, "c": 3}
     return {"flows": flows, "src": render(flows), "event": ev}
 
@@ -127,6 +135,13 @@ def oracle(flows, waiting, ev):
 
 def ident(f):
     return (f["act"], f["aarg"])
+
+
+def ids_of(f, suffix):
+    """the action starts a flow may produce when it proceeds"""
+    if f.get("fork"):
+        return {(f["act"] + suffix, 1), (f["act"] + suffix, 2)}
+    return {(f["act"] + suffix, f["aarg"])}
 
 
 def cases(tier, seed):
@@ -230,7 +245,7 @@ def judge(flows, obs):
             won = distinct[0]
             if starts.count(won) != 1:
                 problems.append("winning-action-started-%d-times" % starts.count(won))
-            allowed_ids = {(f["act"] + suffix, f["aarg"]) for f in allowed[loop]}
+            allowed_ids = set().union(*[ids_of(f, suffix) for f in allowed[loop]])
             if won not in allowed_ids:
                 problems.append("winner-not-most-specific")
             per_loop_seen[loop] = won
@@ -239,7 +254,7 @@ def judge(flows, obs):
                 if not fits(f, ev):
                     if s != "started":
                         problems.append("nonfitting-flow-disturbed")
-                elif (f["act"] + suffix, f["aarg"]) == won:
+                elif won in ids_of(f, suffix):
                     if s != "finished":
                         problems.append("cowinner-not-proceeding(%s)" % s)
                 else:
@@ -315,7 +330,7 @@ def run_case(case):
     if not problems and not stack:
         for loop, ws in first_allowed.items():
             suffix = "Y" if loop else "X"
-            allowed_ids = {(f["act"] + suffix, f["aarg"]) for f in ws}
+            allowed_ids = set().union(*[ids_of(f, suffix) for f in ws])
             if seen_first.get(loop, set()) != allowed_ids:
                 problems.append("tied-winner-never-chosen")
                 witness_exec = {"allowed": sorted(map(repr, allowed_ids)), "seen": sorted(map(repr, seen_first.get(loop, set())))}
